@@ -32,6 +32,7 @@ func init() {
 	ruleText["R06.8"] = "same analysis as C01/R01.8 on the generator of recover: every path of its run-time closure that continues execution stores the call's result, so a recover() executed again in the same activation does not yield the previous panic value"
 	ruleText["R06.9"] = "same analysis as C08/R08.1: no run-time closure writes a variable captured from its generator (deferred-call wrappers and records are per execution)"
 	ruleText["R06.10"] = "in the deferred function of runCfg and its in-package callees (callDeferred and Walk excepted), every constant index X.child[k] lies under a test of X.kind or len(X.child) (enclosing if/switch/case, left operand of &&, or an earlier guard that leaves the block)"
+	ruleText["R06.11"] = "in every generator containing reflect.Value.CallSlice, each run-time closure that appends to frame.deferred also contains a CallSlice call (the ellipsis of f(s...) survives deferral)"
 	ruleText["R06.5"] = "a converting recover assigns Panic{Value: <recovered>, ...} to the error result of its function"
 }
 
@@ -46,6 +47,7 @@ func runC06(c *Config, r *Report) {
 	c06R3(ic, r)
 	c06R4(ic, r)
 	c06R10(ic, r)
+	c06R11(ic, r, "R06.11")
 	// R06.6: defers, recover and panics inside instantiated generic code rest on the AST copy
 	// being identical to a freshly built tree (same analysis as C01/R01.4).
 	sub := newReport("C01")
@@ -853,4 +855,59 @@ func callsInBuiltin(info *types.Info, body ast.Node, name string) []*ast.CallExp
 		return true
 	})
 	return out
+}
+
+// c06R11: a call written f(s...) passes s as the variadic parameter itself, also when the call
+// is deferred. In every call generator that honours the ellipsis for an immediate call (it
+// contains reflect.Value.CallSlice), each run-time closure recording a deferred call (an
+// append to frame.deferred) also contains a CallSlice: the record is consumed by
+// rec[0].Call(rec[1:]), which would pack the slice as a single variadic element
+// (defer fmt.Println(xs...) printing [1 2 3] instead of 1 2 3).
+func c06R11(ic *IC, r *Report, rule string) {
+	info := ic.Info
+	deferredFld := ic.field("frame", "deferred")
+	if deferredFld == nil {
+		r.Errorf("anchor not resolved: frame.deferred")
+		return
+	}
+	n := 0
+	for _, name := range sortedKeys(ic.F) {
+		fi := ic.F[name]
+		if fi.Decl.Body == nil || fi.Obj == nil || fi.Decl.Recv != nil {
+			continue
+		}
+		if len(callsIn(info, fi.Decl.Body, true, "reflect.Value.CallSlice")) == 0 {
+			continue
+		}
+		idx := 0
+		ast.Inspect(fi.Decl.Body, func(m ast.Node) bool {
+			fl, ok := m.(*ast.FuncLit)
+			if !ok || !isFrameClosure(info, fl) {
+				return true
+			}
+			records := false
+			ast.Inspect(fl.Body, func(k ast.Node) bool {
+				if as, ok := k.(*ast.AssignStmt); ok {
+					for _, l := range as.Lhs {
+						if selField(info, l) == deferredFld {
+							records = true
+						}
+					}
+				}
+				return true
+			})
+			if !records {
+				return true
+			}
+			idx++
+			n++
+			has := len(callsIn(info, fl.Body, true, "reflect.Value.CallSlice")) > 0
+			r.Check(has, rule, fmt.Sprintf("%s/deferred-record#%d/ellipsis-honoured", name, idx), ic.pos(fl.Pos()), "the record of a call written f(s...) invokes CallSlice",
+				"generator "+name+" uses reflect.Value.CallSlice for an immediate call written f(s...), but this closure records a deferred call without it: the record is run by rec[0].Call(rec[1:]), so the slice arrives as one element of the variadic parameter (defer fmt.Println(xs...) prints [1 2 3], compiled Go prints 1 2 3)")
+			return false
+		})
+	}
+	if n == 0 {
+		r.Errorf("%s: no closure recording a deferred call found in the generators using CallSlice (call, callBin expected)", rule)
+	}
 }
